@@ -130,7 +130,8 @@ package server
 //@ let H = srv.hooks
 //@ requires [C05] srv != nil && srv.sessionStore != nil && srv.subscriptionsDB != nil && srv.statsManager != nil && srv.clients != nil && srv.offlineClients != nil && srv.queueStore != nil
 //@ requires [C05] smOK(srv.statsManager) && (reason == NormalTermination || reason == ExpiredTermination || reason == TakenOverTermination)
-//@ modifies heap
+//@ let D = srv.subscriptionsDB
+//@ modifies heap, ghostall(queue.Store.$cleans), ghost(S.$removes), ghost(S.$lastRemoved), ghost(S.$has), ghost(D.$unsubAlls), ghost(D.$lastUnsubAll), ghost(H.$st), ghost(H.$stID), ghost(H.$stReason)
 //@ preserves all(server.*), all(Hooks.*), all(statsManager.*), all(client.*), all(ClientOptions.*), all(gmqtt.Session.*), all(gmqtt.Message.*), all(packets.Disconnect.*), all(packets.Properties.*), allcells(uint32)
 //@ ensures [C05] !has(srv.clients, clientID) && !has(srv.offlineClients, clientID) && srv.queueStore[clientID] == nil
 //@ ensures [C05] S.$removes == old(S.$removes) + 1 && S.$lastRemoved == clientID
@@ -154,7 +155,7 @@ package server
 //@ requires [C08] srv != nil && client != nil && client.opts != nil && client.rwc != nil && srv.sessionStore != nil && srv.retainedDB != nil && srv.subscriptionsDB != nil && smOK(srv.statsManager)
 //@ requires [C08] srv.clients != nil && srv.offlineClients != nil && srv.willMessage != nil && srv.queueStore != nil
 //@ requires [C08] client.version == 5 && client.disconnect != nil ==> client.disconnect.Properties != nil
-//@ modifies heap
+//@ modifies heap, ghost(srv.$fanout), ghost(srv.$fanMsg), ghost(srv.$fanSrc), ghost(srv.$fanTopic), ghost(srv.$fanMatch), ghost(srv.hooks.$wp), ghost(srv.hooks.$wpMsg), ghost(srv.hooks.$wpd), ghost(srv.hooks.$wpdMsg), ghost(srv.retainedDB.$msg), ghost(srv.retainedDB.$ops), ghostall(queue.Store.$cleans), ghost(srv.sessionStore.$removes), ghost(srv.sessionStore.$lastRemoved), ghost(srv.sessionStore.$has), ghost(srv.subscriptionsDB.$unsubAlls), ghost(srv.subscriptionsDB.$lastUnsubAll), ghost(srv.hooks.$st), ghost(srv.hooks.$stID), ghost(srv.hooks.$stReason)
 //@ preserves all(server.*), all(Hooks.*), all(client.*), all(ClientOptions.*)
 //@ ensures [C08] sess == nil ==> called(server.sendWillLocked#1) == 0 && spawned() == 0
 //@ ensures [C05] storeSession == (sess != nil && client.forceRemoveSession != 1 && sess.ExpiryInterval != 0)
@@ -173,7 +174,7 @@ package server
 //@ func (*server).unregisterClient$1
 //@ props C08
 //@ requires [C08] srv != nil && wm != nil && t != nil && msg != nil && srv.willMessage != nil && srv.retainedDB != nil
-//@ modifies heap
+//@ modifies heap, ghost(srv.$fanout), ghost(srv.$fanMsg), ghost(srv.$fanSrc), ghost(srv.$fanTopic), ghost(srv.$fanMatch), ghost(srv.hooks.$wp), ghost(srv.hooks.$wpMsg), ghost(srv.hooks.$wpd), ghost(srv.hooks.$wpdMsg), ghost(srv.retainedDB.$msg), ghost(srv.retainedDB.$ops)
 //@ ensures [C08] !has(srv.willMessage, clientID)
 //@ ensures [C08] called(server.sendWillLocked#1) == (send ? 1 : 0)
 //@ call server.sendWillLocked#1 assert [C08] send && !has(srv.willMessage, clientID)
